@@ -6,6 +6,7 @@ package main
 // the choice of the next thread is a decision of the explorer.
 
 import (
+	"os"
 	"fmt"
 	"go/token"
 	"go/types"
@@ -28,6 +29,7 @@ type Thread struct {
 	offers   []offer
 	exited   chan struct{}
 	sendPanic bool
+	eager     bool // scheduled as soon as runnable, without a choice (partner goroutines that only talk over channels)
 }
 
 type offer struct {
@@ -133,6 +135,28 @@ func (in *Interp) pickNext(cur *Thread) *Thread {
 			curEnabled = true
 		}
 	}
+	// eager threads run as soon as they are runnable, deterministically; when
+	// they block again the thread they interrupted goes on (no choice either)
+	if curEnabled && cur.eager {
+		return cur
+	}
+	for _, t := range en {
+		if t.eager {
+			if curEnabled && !cur.eager {
+				in.interrupted = cur
+			}
+			return t
+		}
+	}
+	if in.cur != nil && in.cur.eager && in.interrupted != nil {
+		back := in.interrupted
+		in.interrupted = nil
+		for _, t := range en {
+			if t == back {
+				return t
+			}
+		}
+	}
 	if curEnabled && in.swBudget <= 0 {
 		return cur
 	}
@@ -148,6 +172,21 @@ func (in *Interp) pickNext(cur *Thread) *Thread {
 			}
 		}
 		en = ord
+	}
+	if os.Getenv("VERIF_SCHEDDBG") != "" && in.w != nil && in.w.pos >= len(in.w.events) {
+		cs := "nil"
+		if cur != nil {
+			cs = fmt.Sprintf("t%d(en=%v)", cur.id, curEnabled)
+		}
+		ids := ""
+		for _, t := range en {
+			ids += fmt.Sprintf(" t%d", t.id)
+		}
+		where := ""
+		if in.cur != nil {
+			where = in.cur.what + "@" + in.posStr(in.cur.pos)
+		}
+		fmt.Fprintf(os.Stderr, "SCHED cur=%s incur=t%d budget=%d en=[%s] %s\n", cs, in.cur.id, in.swBudget, ids, where)
 	}
 	c := in.choose(len(en), "sched")
 	in.tape = append(in.tape, TapeEntry{Kind: "sched", Val: uint64(c)})
